@@ -5,6 +5,8 @@ import SodiumModel.Spec.Salsa
 import SodiumModel.Model.CoresRef
 import SodiumModel.Model.ChachaSimd
 import SodiumModel.Model.SalsaSimd
+import SodiumModel.Model.X86Sse
+import Generated.SalsaXmm6Asm
 /-
   The block/core functions passed to the driver models of `Model/Stream.lean` are the C-structured
   reference models of `Model/CoresRef.lean` (chacha20_ref.c, core_salsa_ref.c, core_hsalsa20_ref2.c,
@@ -20,6 +22,13 @@ import SodiumModel.Model.SalsaSimd
   and salsa208 have only the reference code) is ADDITIONALLY run through the AVX2-structured model of the xmm6int code
   (`Model/SalsaSimd.lean`: u8.h → u4.h → u1.h → u0.h) and, up to 4 KiB, through the SSE2-structured one;
   `Properties/C03SalsaSimd.lean` proves they never differ (for 8-byte nonces).
+
+  Every Salsa20 / XSalsa20 operation of at most `asmLimit` bytes is ALSO run through the instruction list that
+  `tools_new/asm2lean_salsa.py` regenerates from the current text of `crypto_stream/salsa20/xmm6/salsa20_xmm6-asm.S`
+  (`Generated/SalsaXmm6Asm.lean`), executed by the x86-64 + SSE2 interpreter of `Model/X86Sse.lean`
+  (`stream_salsa20_xmm6_xor_ic` for the XOR forms, `stream_salsa20_xmm6` for the plain ones); a difference from the
+  reference-structured model, a fault or a run that does not return 0 is answered `MODEL-DISAGREE`.
+  `Properties/C03Asm.lean` holds what is proved about that instruction list.
 -/
 namespace Sodium.Driver.C03
 open Sodium Sodium.Model Sodium.Driver Sodium.Spec Sodium.Model.CoresRef
@@ -40,6 +49,20 @@ def xcheck (ref : Bytes) (avx2r : Unit → Bytes) (ssse3r : Unit → Bytes) : St
   if avx2r () != ref then "MODEL-DISAGREE"
   else if ref.length ≤ 4096 && ssse3r () != ref then "MODEL-DISAGREE"
   else toHex ref
+
+/-- the assembly cross-run is done up to this many bytes -/
+def asmLimit : Nat := 1100
+
+/-- `xcheck` plus the cross-run of the regenerated assembly model -/
+def xcheckAsm (ref : Bytes) (avx2r : Unit → Bytes) (ssse3r : Unit → Bytes) (asmr : Unit → Option Bytes) : String :=
+  if ref.length ≤ asmLimit && asmr () != some ref then "MODEL-DISAGREE"
+  else xcheck ref avx2r ssse3r
+
+def asmXor (m n : Bytes) (ic : UInt64) (k : Bytes) : Option Bytes :=
+  X86Sse.asmXorIc Generated.SalsaXmm6Asm.prog Generated.SalsaXmm6Asm.entry_xor_ic m n ic k
+
+def asmStr (len : Nat) (n k : Bytes) : Option Bytes :=
+  X86Sse.asmStream Generated.SalsaXmm6Asm.prog Generated.SalsaXmm6Asm.entry_stream len n k
 
 def u64? (s : String) : Option UInt64 := do
   let n ← s.toNat?
@@ -85,13 +108,13 @@ def handle (op : String) (args : List String) : Option String :=
       (fun _ => ChachaSimd.ssse3.stream_ref_xor_ic m m (n.drop 16) ic k2))
   | "stream.salsa20", [len, n, k] => do
     let len ← parseNat? len; let n ← ofHex n; let k ← ofHex k
-    some (xcheck (salsa_stream (salsaS 20 k n) len)
-      (fun _ => SalsaSimd.avx2.stream len n k) (fun _ => SalsaSimd.sse2.stream len n k))
+    some (xcheckAsm (salsa_stream (salsaS 20 k n) len)
+      (fun _ => SalsaSimd.avx2.stream len n k) (fun _ => SalsaSimd.sse2.stream len n k) (fun _ => asmStr len n k))
   | "stream.salsa20_xor_ic", [m, n, ic, k] => do
     let m ← ofHex m; let n ← ofHex n; let ic ← u64? ic; let k ← ofHex k
-    some (xcheck (salsa_xor_ic (salsaS 20 k n) ic m)
+    some (xcheckAsm (salsa_xor_ic (salsaS 20 k n) ic m)
       (fun _ => SalsaSimd.avx2.stream_xor_ic (zeros m.length) m n ic k)
-      (fun _ => SalsaSimd.sse2.stream_xor_ic m m n ic k))
+      (fun _ => SalsaSimd.sse2.stream_xor_ic m m n ic k) (fun _ => asmXor m n ic k))
   | "stream.salsa2012", [len, n, k] => do
     let len ← parseNat? len; let n ← ofHex n; let k ← ofHex k
     some (toHex (salsa_stream (salsaS 12 k n) len))
@@ -107,14 +130,15 @@ def handle (op : String) (args : List String) : Option String :=
   | "stream.xsalsa20", [len, n, k] => do
     let len ← parseNat? len; let n ← ofHex n; let k ← ofHex k
     let k2 := crypto_core_hsalsa20 (n.take 16) k none
-    some (xcheck (salsa_stream (salsaS 20 k2 (n.drop 16)) len)
-      (fun _ => SalsaSimd.avx2.stream len (n.drop 16) k2) (fun _ => SalsaSimd.sse2.stream len (n.drop 16) k2))
+    some (xcheckAsm (salsa_stream (salsaS 20 k2 (n.drop 16)) len)
+      (fun _ => SalsaSimd.avx2.stream len (n.drop 16) k2) (fun _ => SalsaSimd.sse2.stream len (n.drop 16) k2)
+      (fun _ => asmStr len (n.drop 16) k2))
   | "stream.xsalsa20_xor_ic", [m, n, ic, k] => do
     let m ← ofHex m; let n ← ofHex n; let ic ← u64? ic; let k ← ofHex k
     let k2 := crypto_core_hsalsa20 (n.take 16) k none
-    some (xcheck (salsa_xor_ic (salsaS 20 k2 (n.drop 16)) ic m)
+    some (xcheckAsm (salsa_xor_ic (salsaS 20 k2 (n.drop 16)) ic m)
       (fun _ => SalsaSimd.avx2.stream_xor_ic (zeros m.length) m (n.drop 16) ic k2)
-      (fun _ => SalsaSimd.sse2.stream_xor_ic m m (n.drop 16) ic k2))
+      (fun _ => SalsaSimd.sse2.stream_xor_ic m m (n.drop 16) ic k2) (fun _ => asmXor m (n.drop 16) ic k2))
   | "core.hchacha20", [inp, k, c] => do
     let inp ← ofHex inp; let k ← ofHex k
     let c ← if c = "N" then some none else (ofHex c).map some
